@@ -394,6 +394,28 @@ def diff_sig(a: Dict[str, Any], b: Dict[str, Any], moved: set = frozenset()) -> 
     ka, kb = set(a), set(b)
     if ka != kb:
         d = sorted(ka ^ kb)
+        both = {**a, **b}
+        # (1) every extra object is an ATTRIBUTE of a class one of whose (documented) ancestors has a member of that
+        # name: `meth = deco(Base.meth)` in a class body is a wrapped inherited method when the base is known while
+        # the body is visited, a new attribute when it is not (known finding: base imported from the defining module
+        # of a class that a sibling re-exports)
+        def shadows_inherited(k):
+            e = both[k]
+            par = e.get("parent")
+            if e.get("cls") not in ("Attribute", "ZopeInterfaceAttribute") or par not in both:
+                return False
+            nm = k[len(par) + 1:]
+            for x in (a, b):
+                for anc in ((x.get(par) or {}).get("mro_resolved") or [])[1:]:
+                    if anc + "." + nm in x:
+                        return True
+            return False
+        if all(shadows_inherited(k) for k in d):
+            return "attribute-wrapping-inherited-method", f"documented under one order only: {d[:4]}"
+        # (2) zope.interface: `I = SomeInterfaceClass('I')` documented as an interface class (the variable superseded:
+        # `I 0`) under one order and as a plain variable under the other
+        if all(k.endswith(" 0") and k[:-2] in ka and k[:-2] in kb and {a[k[:-2]].get("cls"), b[k[:-2]].get("cls")} == {"Class", "Attribute"} for k in d):
+            return "zope-kind-of-moved-interface", f"documented under one order only: {d[:4]}"
         return "objects-differ", f"documented under one order only: {d[:4]}"
     for k in a:
         if a[k] != b[k]:
@@ -409,6 +431,9 @@ def diff_sig(a: Dict[str, Any], b: Dict[str, Any], moved: set = frozenset()) -> 
                         # same documented classes in the same order: only the NAME shown for a base that is not
                         # documented differs
                         return "unresolved-base-name-differs", f"{k}: {f} {a[k].get(f)!r} vs {b[k].get(f)!r}"
+                    if f in ("kind", "cls") and {a[k].get("kind"), b[k].get("kind")} in ({"INTERFACE", "CLASS"}, {"SCHEMA_FIELD", "CLASS_VARIABLE"},
+                                                                                              {"SCHEMA_FIELD", "INSTANCE_VARIABLE"}, {"ATTRIBUTE", "CLASS_VARIABLE"}):
+                        return "zope-kind-of-moved-interface", f"{k}: {f} {a[k].get(f)!r} vs {b[k].get(f)!r}"
                     return f + "-differs", f"{k}: {f} {a[k].get(f)!r} vs {b[k].get(f)!r}"
     return "?", "?"
 
